@@ -298,8 +298,13 @@ class Interp:
     def value(self, s, u=0, env=None):
         'z3 Int term: value of sentence s at world term u.'
         if self.opaque(s):
-            if s.variables and env:
-                raise NotImplementedError('open opaque sentence')
+            if s.variables:
+                # an uninterpreted sentence with free variables is one atom per
+                # instantiation of those variables by elements
+                inst = tuple((v.spec, (env or {}).get(v)) for v in sorted(s.variables))
+                if any(isinstance(e, z3.ExprRef) for _, e in inst):
+                    raise NotImplementedError('open opaque sentence under a symbolic element')
+                return self._at(('O', s.ident, inst), u)
             return self._at(('O', s.ident), u)
         t = type(s)
         if t is Atomic:
